@@ -285,7 +285,20 @@ func (w *World) conditionConsts() map[string]uint64 {
 	out := map[string]uint64{}
 	for n, m := range w.SSA.Members {
 		if c, ok := m.(*ssa.NamedConst); ok && typeIs(c.Type(), apdPath, "Condition") {
-			if v, ok := constant.Uint64Val(constant.ToInt(c.Value.Value)); ok {
+			if v, ok := constant.Uint64Val(constant.ToInt(c.Value.Value)); ok && v != 0 && v&(v-1) == 0 {
+				out[n] = v // single-bit constants are the flags; unions (DefaultTraps) are not
+			}
+		}
+	}
+	return out
+}
+
+// conditionUnions returns the declared Condition constants that are not single bits.
+func (w *World) conditionUnions() map[string]uint64 {
+	out := map[string]uint64{}
+	for n, m := range w.SSA.Members {
+		if c, ok := m.(*ssa.NamedConst); ok && typeIs(c.Type(), apdPath, "Condition") {
+			if v, ok := constant.Uint64Val(constant.ToInt(c.Value.Value)); ok && (v == 0 || v&(v-1) != 0) {
 				out[n] = v
 			}
 		}
